@@ -38,7 +38,7 @@ def run(module, cfg, *, env=None, workers=None, simulate=None, depth=None, seedv
     res = TlcResult(label)
     md = common.scratch("tlcmeta-")
     cfgp = cfg if os.path.isabs(cfg) else os.path.join(common.SPEC, cfg)
-    cmd = ["java", f"-Xss{xss}", "-XX:+UseParallelGC"]
+    cmd = ["java", f"-Xss{xss}", "-XX:+UseParallelGC", f"-Djava.io.tmpdir={md}"]     # TLC leaves an empty tlc-* directory per run there
     if heap:
         cmd.append(f"-Xmx{heap}")
     if dfs:
